@@ -3,6 +3,7 @@ import FxVerif.Proofs.C15
 import FxVerif.Proofs.C15Queue
 import FxVerif.Proofs.C15Tally
 import FxVerif.Proofs.C15Run
+import FxVerif.Proofs.C15Step
 /-!
 # C15 — governance deposits are conserved and proposals follow their message-type rules
 
@@ -724,6 +725,266 @@ theorem min_deposit_over_sum_of_spends (s : State) (p : Proposal) (who : Addr) (
     simp
   rw [e] at h
   exact h
+
+/-! ## round 3: activation ⇔ minimum deposit, and voting ends exactly at the queue time — over every history -/
+
+/-- requested community-pool amounts (deposit denom, other denom) when every message is a community-pool spend -/
+def specRequest2 : List Msg → Option (Nat × Nat)
+  | [] => some (0, 0)
+  | m :: r =>
+    if isSpendType m.ty then
+      match specRequest2 r, m.act with
+      | some (a, b), .credit fx other _ => some (a + fx, b + other)
+      | some (a, b), _ => some (a, b)
+      | none, _ => none
+    else none
+
+theorem egfRequest_eq_spec2 : ∀ msgs : List Msg, egfRequest msgs = specRequest2 msgs := by
+  intro msgs
+  induction msgs with
+  | nil => rfl
+  | cons m r ih =>
+    have h1 : egfSeenUrl m = m.ty := by simp [egfSeenUrl, show egfUrlIsMessageUrl = true from rfl]
+    have h2 : isEgf m.ty = isSpendType m.ty := by simp [isEgf, isSpendType, show egfTypeCmp = "strings.EqualFold" from rfl]
+    simp only [egfRequest, specRequest2, h1, h2, ih]
+    by_cases hs : isSpendType m.ty = true
+    · simp only [hs, if_true]
+      cases specRequest2 r with
+      | none => rfl
+      | some ab => obtain ⟨a, b⟩ := ab; cases m.act <;> rfl
+    · simp [hs]
+
+theorem specRequest_eq_fst : ∀ msgs : List Msg, specRequest msgs = (specRequest2 msgs).map (·.1) := by
+  intro msgs
+  induction msgs with
+  | nil => rfl
+  | cons m r ih =>
+    simp only [specRequest, specRequest2, ih]
+    by_cases hs : isSpendType m.ty = true
+    · simp only [hs, if_true]
+      cases specRequest2 r with
+      | none => rfl
+      | some ab => obtain ⟨a, b⟩ := ab; cases m.act <;> rfl
+    · simp [hs]
+
+/-- the configured share of the amount requested in a denomination that cannot be deposited (deposits are made in the one
+denomination of `params.MinDeposit`): when it is positive, no deposit can ever reach the minimum -/
+def specOtherShare (custom : List (Ty × Custom)) (msgs : List Msg) : Nat :=
+  match specRequest2 msgs, getCustom custom egfUrl.toList with
+  | some (_, other), some c => mulRound other c.depositRatio
+  | _, _ => 0
+
+/-- **the activation test the property asks for**: the total deposit reaches the minimum applicable to the message type -/
+def specActivates (custom : List (Ty × Custom)) (dflt : Nat) (msgs : List Msg) (total : Nat) : Bool :=
+  decide (specMin custom dflt msgs ≤ total) && total != 0 && specOtherShare custom msgs == 0
+
+theorem mulRound_zero_left (r : Nat) : mulRound 0 r = 0 := by simp [mulRound, roundHalfEven, DEC]
+theorem mulRound_zero_right (a : Nat) : mulRound a 0 = 0 := by simp [mulRound, roundHalfEven, DEC]
+
+/-- the test `AddDeposit` performs (comparison, EGF rule, rounding and combination all read from the source) IS the
+specified one — both directions -/
+theorem reaches_eq_specActivates (custom : List (Ty × Custom)) (dflt total : Nat) (msgs : List Msg) :
+    reaches total (minForMsgs custom dflt msgs) = specActivates custom dflt msgs total := by
+  have hA : activationCmp = "IsAllGTE" := rfl
+  have hB : egfCombine = "max" := rfl
+  have hC : activationUsesMsgMin = true := rfl
+  have hD : egfRounding = "RoundInt" := rfl
+  have hZ : egfZeroRatioIsDefault = true := rfl
+  have plain : reaches total ⟨some dflt, none⟩ = (decide (dflt ≤ total) && total != 0 && true) := by
+    simp only [reaches, hA]
+    by_cases h1 : dflt ≤ total <;> by_cases h2 : total = 0 <;> simp [h1, h2]
+  unfold minForMsgs specActivates specMin specOtherShare
+  simp only [hC, Bool.not_true, Bool.false_eq_true, if_false]
+  rw [egfRequest_eq_spec2, specRequest_eq_fst]
+  cases hs : specRequest2 msgs with
+  | none => simpa using plain
+  | some ab =>
+    obtain ⟨a, b⟩ := ab
+    simp only [Option.map_some]
+    cases hc : getCustom custom egfUrl.toList with
+    | none => simpa using plain
+    | some c =>
+      simp only
+      by_cases hz : c.depositRatio = 0
+      · simp only [hZ, hz, beq_self_eq_true, Bool.and_self, if_true, mulRound_zero_right]
+        simpa using plain
+      · have hz' : (c.depositRatio == 0) = false := by simpa using hz
+        have hne : ¬ ("max" == "share-unless-IsAllLT-default") = true := by decide
+        simp only [hz', Bool.and_false, Bool.false_eq_true, if_false, hB, hne, beq_self_eq_true, if_true, egfShare, hD]
+        have hfx : (if (a == 0) = true then (none : Option Nat) else some (mulRound a c.depositRatio)).getD 0 = mulRound a c.depositRatio := by
+          by_cases ha : a = 0
+          · subst ha; simp [mulRound_zero_left]
+          · simp [ha]
+        rw [hfx]
+        simp only [reaches, hA]
+        by_cases hb : b = 0
+        · subst hb
+          simp only [beq_self_eq_true, if_true, mulRound_zero_left]
+          by_cases h1 : max dflt (mulRound a c.depositRatio) ≤ total <;> by_cases h2 : total = 0 <;> simp [h1, h2]
+        · have hb' : (b == 0) = false := by simpa using hb
+          simp only [hb', Bool.false_eq_true, if_false]
+          cases hx : mulRound b c.depositRatio with
+          | zero =>
+            by_cases h1 : max dflt (mulRound a c.depositRatio) ≤ total <;> by_cases h2 : total = 0 <;> simp [h1, h2]
+          | succ y =>
+            by_cases h1 : max dflt (mulRound a c.depositRatio) ≤ total <;> by_cases h2 : total = 0 <;> simp [h1, h2]
+
+/-- **activation ⇔ minimum deposit, in every state**: a successful `AddDeposit` on a proposal in its deposit period moves
+it into voting if AND ONLY IF its new total reaches the minimum applicable to its message type — the default for its kind,
+or the configured share of the requested community-pool amount when that is larger (and nothing is requested in a
+denomination that cannot be deposited) -/
+theorem activation_iff_min_deposit (s : State) (p : Proposal) (who : Addr) (amt : Nat)
+    (hdep : p.status = .deposit) (hfound : findProp s.props p.id = some p) :
+    ∃ p', findProp (depositEffect s p who amt).props p.id = some p' ∧ p'.total = p.total + amt ∧
+      (p'.status = .voting ↔
+        specActivates s.custom (if p.expedited then s.params.expMinDeposit else s.params.minDeposit) p.msgs (p.total + amt) = true) ∧
+      (p'.status = .voting ∨ p'.status = .deposit) := by
+  rw [findProp_depositEffect s p who amt hfound]
+  simp only [if_true]
+  have e := reaches_eq_specActivates s.custom (defaultMin s p.expedited) (p.total + amt) p.msgs
+  have ed : defaultMin s p.expedited = if p.expedited then s.params.expMinDeposit else s.params.minDeposit := rfl
+  rw [ed] at e
+  by_cases hact : reaches (p.total + amt) (minForMsgs s.custom (defaultMin s p.expedited) p.msgs) = true
+  · have ha : (afterDeposit s p amt).status = .voting ∧ (afterDeposit s p amt).total = p.total + amt := by
+      simp [afterDeposit, hdep, hact]
+    refine ⟨_, rfl, ha.2, ⟨fun _ => ?_, fun _ => ha.1⟩, Or.inl ha.1⟩
+    rw [← e]; exact hact
+  · have hact' : reaches (p.total + amt) (minForMsgs s.custom (defaultMin s p.expedited) p.msgs) = false := by simpa using hact
+    have ha : afterDeposit s p amt = { p with total := p.total + amt } := by
+      simp [afterDeposit, hact']
+    rw [ha]
+    refine ⟨_, rfl, rfl, ⟨fun h => ?_, fun h => ?_⟩, Or.inr hdep⟩
+    · have h' : p.status = .voting := h
+      rw [hdep] at h'; cases h'
+    · rw [← e] at h; exact absurd (h.symm.trans hact') (by decide)
+
+theorem run_snoc : ∀ (ops : List Op) (s : State) (op : Op), run s (ops ++ [op]) = (step (run s ops) op).1 := by
+  intro ops
+  induction ops with
+  | nil => intro s op; rfl
+  | cons o r ih => intro s op; simp only [List.cons_append, run]; exact ih _ op
+
+theorem afterDeposit_facts (s : State) (p : Proposal) (amt : Nat) (hdep : p.status = .deposit) :
+    (afterDeposit s p amt).total = p.total + amt ∧ (afterDeposit s p amt).msgs = p.msgs ∧
+    (afterDeposit s p amt).expedited = p.expedited ∧
+    ((afterDeposit s p amt).status = .voting ↔ specActivates s.custom (defaultMin s p.expedited) p.msgs (p.total + amt) = true) ∧
+    ((afterDeposit s p amt).status = .voting ∨ (afterDeposit s p amt).status = .deposit) ∧
+    ((afterDeposit s p amt).status = .voting → (afterDeposit s p amt).votingStart = s.time ∧
+        (afterDeposit s p amt).votingEnd = s.time + specPeriod s.params s.custom p.msgs p.expedited) := by
+  have e := reaches_eq_specActivates s.custom (defaultMin s p.expedited) (p.total + amt) p.msgs
+  have t1 : (afterDeposit s p amt).total = p.total + amt := by unfold afterDeposit; split <;> rfl
+  have t2 : (afterDeposit s p amt).msgs = p.msgs := by unfold afterDeposit; split <;> rfl
+  have t3 : (afterDeposit s p amt).expedited = p.expedited := by unfold afterDeposit; split <;> rfl
+  refine ⟨t1, t2, t3, ?_⟩
+  by_cases hact : reaches (p.total + amt) (minForMsgs s.custom (defaultMin s p.expedited) p.msgs) = true
+  · have c : (p.status == .deposit && reaches (p.total + amt) (minForMsgs s.custom (defaultMin s p.expedited) p.msgs)) = true := by
+      simp [hdep, hact]
+    have u1 : (afterDeposit s p amt).status = .voting := by unfold afterDeposit; rw [if_pos c]
+    have u2 : (afterDeposit s p amt).votingStart = s.time := by unfold afterDeposit; rw [if_pos c]
+    have u3 : (afterDeposit s p amt).votingEnd = s.time + activationPeriod s { p with total := p.total + amt } := by
+      unfold afterDeposit; rw [if_pos c]
+    refine ⟨⟨fun _ => (by rw [← e]; exact hact), fun _ => u1⟩, Or.inl u1, fun _ => ⟨u2, ?_⟩⟩
+    rw [u3, activation_period_by_type]
+  · have hact' : reaches (p.total + amt) (minForMsgs s.custom (defaultMin s p.expedited) p.msgs) = false := by simpa using hact
+    have c : ¬ (p.status == .deposit && reaches (p.total + amt) (minForMsgs s.custom (defaultMin s p.expedited) p.msgs)) = true := by
+      simp [hact']
+    have u1 : (afterDeposit s p amt).status = .deposit := by unfold afterDeposit; rw [if_neg c]; exact hdep
+    refine ⟨⟨fun h => (by rw [u1] at h; cases h), fun h => ?_⟩, Or.inr u1, fun h => (by rw [u1] at h; cases h)⟩
+    rw [← e] at h; exact absurd (h.symm.trans hact') (by decide)
+
+theorem afterDeposit_voting (s : State) (p : Proposal) (amt : Nat) (hv : p.status = .voting) :
+    afterDeposit s p amt = { p with total := p.total + amt } := by
+  simp [afterDeposit, hv]
+
+/-- **a proposal enters voting exactly when a deposit brings its total to the minimum of its message type — after every
+history, for every next operation**.  With `s` the state after any operation list and `s'` the state after one more
+operation: (1) a stored proposal in its deposit period is in its voting period afterwards if AND ONLY IF its total changed
+(the operation was an accepted deposit on it) and the new total reaches the minimum applicable to its message type with the
+parameters and custom parameters of that moment; when it does, voting starts now, ends at now + the period configured for
+its message type at that moment, and that end time is its entry in the active queue; its messages and kind never change;
+(2) the same for a proposal that is stored by this very operation (submission with its initial deposit); (3) a proposal
+that has ended is never touched again (in particular it never re-enters voting). -/
+theorem enters_voting_exactly_when_min_reached (ops : List Op) (op : Op) (pid : Nat) :
+    let s := run init ops
+    let s' := (step s op).1
+    (∀ p, findProp s.props pid = some p → p.status = .deposit → ∀ p', findProp s'.props pid = some p' →
+        (p'.status = .voting ↔ (p'.total ≠ p.total ∧ specActivates s.custom (defaultMin s p.expedited) p.msgs p'.total = true)) ∧
+        (p'.status = .voting → p'.votingStart = s.time ∧ p'.votingEnd = s.time + specPeriod s.params s.custom p.msgs p.expedited ∧
+            (p'.votingEnd, pid) ∈ s'.active) ∧
+        (p'.status = .voting ∨ p'.status = .deposit) ∧ p'.msgs = p.msgs ∧ p'.expedited = p.expedited) ∧
+    (findProp s.props pid = none → ∀ p', findProp s'.props pid = some p' →
+        (p'.status = .voting ↔ specActivates s.custom (defaultMin s p'.expedited) p'.msgs p'.total = true) ∧
+        (p'.status = .voting → p'.votingStart = s.time ∧ p'.votingEnd = s.time + specPeriod s.params s.custom p'.msgs p'.expedited ∧
+            (p'.votingEnd, pid) ∈ s'.active) ∧
+        (p'.status = .voting ∨ p'.status = .deposit)) ∧
+    (∀ p, findProp s.props pid = some p → isOpenSt p.status = false → findProp s'.props pid = some p) := by
+  intro s s'
+  have ha : All s := run_all rfl rfl rfl rfl ops init init_all
+  have ha' : All s' := step_all rfl rfl rfl rfl op ha
+  have inq : ∀ p', findProp s'.props pid = some p' → p'.status = .voting → (p'.votingEnd, pid) ∈ s'.active :=
+    fun p' h1 h2 => ha'.both.q.actComplete pid p' h1 h2
+  by_cases hE : ∃ dt stk, op = .endBlock dt stk
+  · obtain ⟨dt, stk, rfl⟩ := hE
+    have hs' : s' = (step s (.endBlock dt stk)).1 := rfl
+    simp only [step] at hs'
+    cases hb : endBlock stk s with
+    | error e =>
+      have e' : s' = s := by rw [hs', hb]
+      rw [e']
+      refine ⟨fun p hp hd p' hp' => ?_, fun hn p' hp' => ?_, fun p hp _ => hp⟩
+      · rw [hp] at hp'; cases hp'
+        refine ⟨⟨fun h => (by rw [hd] at h; cases h), fun h => absurd rfl h.1⟩, fun h => (by rw [hd] at h; cases h), Or.inr hd, rfl, rfl⟩
+      · rw [hn] at hp'; cases hp'
+    | ok s1 =>
+      have e' : s'.props = s1.props := by rw [hs', hb]
+      rw [e']
+      refine ⟨fun p hp hd p' hp' => ?_, fun hn p' hp' => ?_, fun p hp hc => ?_⟩
+      · have dd := endBlock_deposit rfl rfl rfl rfl ha hb hp hd
+        by_cases hlt : s.time < p.depositEnd
+        · rw [dd.1 hlt] at hp'; cases hp'
+          refine ⟨⟨fun h => (by rw [hd] at h; cases h), fun h => absurd rfl h.1⟩, fun h => (by rw [hd] at h; cases h), Or.inr hd, rfl, rfl⟩
+        · rw [dd.2 (by omega)] at hp'; cases hp'
+      · have := endBlock_closed rfl rfl rfl rfl ha hb (pid := pid) (fun p hp => by rw [hn] at hp; cases hp)
+        rw [this, hn] at hp'; cases hp'
+      · have := endBlock_closed rfl rfl rfl rfl ha hb (pid := pid) (fun q hq => by rw [hp] at hq; cases hq; exact hc)
+        rw [this]; exact hp
+  · have hne : ∀ dt stk, op ≠ .endBlock dt stk := fun dt stk e => hE ⟨dt, stk, e⟩
+    have sh := step_findProp s op hne ha.both.q pid
+    refine ⟨fun p hp hd p' hp' => ?_, fun hn p' hp' => ?_, fun p hp hc => ?_⟩
+    · rcases sh with sh | ⟨q, who, amt, hq, _, _, hamt, hr⟩ | ⟨who, q, _, _, _, hr⟩ | ⟨who, msgs, initial, exp, _, _, hnone, _, _⟩
+      · have : findProp s'.props pid = findProp s.props pid := sh
+        rw [this, hp] at hp'; cases hp'
+        refine ⟨⟨fun h => (by rw [hd] at h; cases h), fun h => absurd rfl h.1⟩, fun h => (by rw [hd] at h; cases h), Or.inr hd, rfl, rfl⟩
+      · rw [hp] at hq; cases hq
+        have hr' : findProp s'.props pid = some (afterDeposit s p amt) := hr
+        rw [hr'] at hp'; cases hp'
+        obtain ⟨f1, f2, f3, f4, f5, f6⟩ := afterDeposit_facts s p amt hd
+        refine ⟨⟨fun h => ⟨(by rw [f1]; omega), (by rw [f1]; exact f4.mp h)⟩, fun h => f4.mpr (by rw [← f1]; exact h.2)⟩,
+          fun h => ⟨(f6 h).1, (f6 h).2, inq _ hr' h⟩, f5, f2, f3⟩
+      · have hr' : findProp s'.props pid = none := hr
+        rw [hr'] at hp'; cases hp'
+      · rw [hp] at hnone; cases hnone
+    · rcases sh with sh | ⟨q, who, amt, hq, _⟩ | ⟨who, q, _, hq, _⟩ | ⟨who, msgs, initial, exp, _, _, _, _, hr⟩
+      · have : findProp s'.props pid = findProp s.props pid := sh
+        rw [this, hn] at hp'; cases hp'
+      · rw [hn] at hq; cases hq
+      · rw [hn] at hq; cases hq
+      · have hr' : findProp s'.props pid = some (afterDeposit s (newProp s who msgs exp) initial) := hr
+        rw [hr'] at hp'; cases hp'
+        obtain ⟨f1, f2, f3, f4, f5, f6⟩ := afterDeposit_facts s (newProp s who msgs exp) initial rfl
+        have f1' : (afterDeposit s (newProp s who msgs exp) initial).total = initial := by rw [f1]; simp [newProp]
+        refine ⟨?_, fun h => ⟨(f6 h).1, ?_, inq _ hr' h⟩, f5⟩
+        · rw [f2, f3, f1']
+          have : (newProp s who msgs exp).total + initial = initial := by simp [newProp]
+          rw [this] at f4
+          exact f4
+        · rw [f2, f3]; exact (f6 h).2
+    · rcases sh with sh | ⟨q, who, amt, hq, ho, _⟩ | ⟨who, q, _, hq, ho, _⟩ | ⟨who, msgs, initial, exp, _, _, hnone, _, _⟩
+      · have : findProp s'.props pid = findProp s.props pid := sh
+        rw [this]; exact hp
+      · rw [hp] at hq; cases hq; rw [hc] at ho; cases ho
+      · rw [hp] at hq; cases hq; rw [hc] at ho; cases ho
+      · rw [hp] at hnone; cases hnone
 
 /-! ## non-vacuity -/
 
